@@ -124,11 +124,27 @@ def scenarios(tier, seed=0):
     for L in ([40] if q else [18, 40]):
         for off in (False, True):
             out.append(mk("05/01", L, D(2001, 4, 29), D(2002, 7, 30), off, word="dry"))
+    # the same crops with their lengths passed as numpy scalars (elements of a parameter array), calendar and thermal time
+    for off in (False, True):
+        for L in (18, 40):
+            sc = mk("05/01", L, D(2001, 4, 29), D(2002, 7, 30), off)
+            sc["numpy"] = True
+            out.append(sc)
+        sc = mk("05/01", 0, D(2001, 4, 29), D(2002, 8, 30) if not off else D(2001, 9, 30), off, thermal=True, word="normal")
+        sc["numpy"] = True
+        out.append(sc)
     for s in out:
         yield s
 
 
 def build_spec(scn):
+    spec = _build_spec(scn)
+    if scn.get("numpy"):
+        spec["crop"]["numpy"] = True
+    return spec
+
+
+def _build_spec(scn):
     L = scn["L"]
     if scn["thermal"]:
         crop = {"name": "MaizeGDD", "planting": scn["planting"], "harvest": scn["harvest"], "scale": None, "gddscale": 0.15, "kw": {}}
